@@ -238,9 +238,12 @@ def recursion_rule(chk, prog, cfg, bodies):
     chk.extra.setdefault("recursive_functions", {})[cfg] = sorted(rec_fns)
     bad = [c for c in sccs if len(c) > 1 or (c[0] in g.get(c[0], ()))]
     for comp in bad:
-        names = sorted(comp)
+        # the finding is named after the functions of the cycle that exist on the pinned tree (helpers split off later do not rename it)
+        new_fns = set(getattr(prog, "new_functions", []) or [])
+        names = sorted(n for n in comp if n not in new_fns) or sorted(comp)
         chk.ob("RECUR", names[0], "recursion cycle without depth guard: " + " -> ".join(core.short(n).split("::")[-1] for n in names), False,
-               "nesting depth chosen by the input drives unbounded recursion (stack overflow aborts the process)", where=prog.bodies[names[0]].file, cfg=cfg)
+               "nesting depth chosen by the input drives unbounded recursion (stack overflow aborts the process); cycle: " + " -> ".join(core.short(n).split("::")[-1] for n in sorted(comp)),
+               where=prog.bodies[names[0]].file, cfg=cfg)
     guarded_cycles = rec_fns - set(x for c in bad for x in c)
     for p in sorted(guarded_cycles):
         chk.ob("RECUR", p, "recursive function: every cycle through it passes a depth gate", True, cfg=cfg)
@@ -255,6 +258,7 @@ def recursion_rule(chk, prog, cfg, bodies):
 
 def alloc_rule(chk, prog, cfg, bodies):
     n = 0
+    seen_sites = {}
     for p in sorted(bodies):
         b = prog.bodies[p]
         if "promoted" in p:
@@ -279,7 +283,13 @@ def alloc_rule(chk, prog, cfg, bodies):
                     if a == panics._strip(d) and op in ("<", "<=") and (panics._const_int(r_) is not None or panics._len_of(r_) is not None):
                         bounded = True
             label = f"{t['callee'].split('::')[-1]}({panics.short_desc(d)})"
-            chk.ob("ALLOC", p, f"allocation sized by a claimed length: {label}", bounded,
+            # the finding is keyed by what is allocated from what kind of claimed number, not by the expression's spelling
+            kinds = sorted(set(c[1].split("::")[-1] for c in srcs))
+            site = f"{t['callee'].split('::')[-1]} sized by {'/'.join(kinds)}"
+            seen_sites[(p, site)] = seen_sites.get((p, site), 0) + 1
+            if seen_sites[(p, site)] > 1:
+                site += f" #{seen_sites[(p, site)]}"
+            chk.ob("ALLOC", p, f"allocation sized by a claimed length: {site}", bounded,
                    f"{label}: the size is a number parsed from the peer ({srcs[0][1].split('::')[-1]}) with no upper bound: a few header bytes "
                    f"make the parser allocate (and zero) that much memory before any payload arrives", where=b.where(blk), cfg=cfg)
     chk.floor(f"claimed-length allocation sites [{cfg}]", n, 4 if cfg == "A" else 1)
